@@ -48,8 +48,7 @@ func match(filter CompFilter, comp *ical.Component) (bool, error) {
 		return false, nil
 	}
 
-	var zeroDate time.Time
-	if filter.Start != zeroDate {
+	if !filter.Start.IsZero() || !filter.End.IsZero() {
 		match, err := matchCompTimeRange(filter.Start, filter.End, comp)
 		if err != nil {
 			return false, err
@@ -114,8 +113,7 @@ func matchPropFilter(filter PropFilter, comp *ical.Component) (bool, error) {
 		}
 	}
 
-	var zeroDate time.Time
-	if filter.Start != zeroDate {
+	if !filter.Start.IsZero() || !filter.End.IsZero() {
 		match, err := matchPropTimeRange(filter.Start, filter.End, field)
 		if err != nil {
 			return false, err
@@ -162,19 +160,26 @@ func matchCompTimeRange(start, end time.Time, comp *ical.Component) (bool, error
 		return false, err
 	}
 
-	// Event starts in time range
-	if eventStart.After(start) && (end.IsZero() || eventStart.Before(end)) {
-		return true, nil
+	return timeRangeOverlaps(start, end, eventStart, eventEnd.Sub(eventStart)), nil
+}
+
+// timeRangeOverlaps implements the VEVENT conditions of RFC 4791 section 9.9
+// for an event (or recurrence instance) starting at eventStart and lasting
+// dur. A zero start or end means that the time range is open on that side.
+func timeRangeOverlaps(start, end, eventStart time.Time, dur time.Duration) bool {
+	// end > DTSTART
+	if !end.IsZero() && !end.After(eventStart) {
+		return false
 	}
-	// Event ends in time range
-	if eventEnd.After(start) && (end.IsZero() || eventEnd.Before(end)) {
-		return true, nil
+	if start.IsZero() {
+		return true
 	}
-	// Event covers entire time range plus some
-	if eventStart.Before(start) && (!end.IsZero() && eventEnd.After(end)) {
-		return true, nil
+	if dur > 0 {
+		// start < DTEND, or start < DTSTART+DURATION
+		return start.Before(eventStart.Add(dur))
 	}
-	return false, nil
+	// start <= DTSTART
+	return !start.After(eventStart)
 }
 
 func matchPropTimeRange(start, end time.Time, field *ical.Prop) (bool, error) {
@@ -184,7 +189,7 @@ func matchPropTimeRange(start, end time.Time, field *ical.Prop) (bool, error) {
 	if err != nil {
 		return false, err
 	}
-	if ptime.After(start) && (end.IsZero() || ptime.Before(end)) {
+	if (start.IsZero() || ptime.After(start)) && (end.IsZero() || ptime.Before(end)) {
 		return true, nil
 	}
 	return false, nil
